@@ -284,7 +284,38 @@ _ADDED3 = {
            "invariant under exchanging the operands; (U1) see C08.",
     "C20": " (T4) the debounce timer is reset only through a drained channel; (T6) the watcher adds every directory it generates from.",
 }
-for _src in (_ADDED, _ADDED3):
+# Clauses added after the fourth round of independently seeded changes.
+_ADDED4 = {
+    "C01": " (ZZ1) every zig-zag encoder of coded_stream.h folds the sign with an arithmetic shift by (bit width of its argument - 1); (UI1) the case number a generator "
+           "emits for a union case is its position among the non-null cases (a loop that skips the null case numbers with its own counter, not the range position).",
+    "C02": " (GR1) every emitted from_json that accumulates into `value` resets it first in the same emitted function (stream readers reuse one object); (PN3) the Python "
+           "serializers and converters test an Optional parameter with `is None`, never by truthiness.",
+    "C03": " (UI1) see C01; (PN3) see C02; (PS1) extended to the optional serializers.",
+    "C04": " (GC1) no package-level variable of the compiler is written at run time outside init() except the audited ones (no memo of schema strings or manifests across "
+           "validations); (NH1) C++ NDJSON ReadHeader/ReadAndValidateHeader complete only behind a whole-operand comparison (analysed when nlohmann/json.hpp is installed).",
+    "C05": " (X11, extended) floating point -> integer conversions round before the cast; (L2) version labels and version models appended in lockstep are never reordered or "
+           "filtered separately.",
+    "C06": " (X1c) the namespace cache handed to parsePackageNamespaces is created per package, never shared between a model and its previous versions; (L2) see C05.",
+    "C07": " (PM1) the Python runtime mixins that precede the generated abstract base in the bases of generated classes define no public method that would shadow the state "
+           "machine's close()/__exit__/step methods.",
+    "C08": " (AR1) some validation pass reports an error for an array whose `dimensions` is present and empty (the *Array handler is evaluated for that abstract array, "
+           "helpers followed); (Z1) no shape predicate of TypeCases is tested where an excluding predicate of the same value is known to hold.",
+    "C09": " (E7) an ErrorSink/WarningSink is never re-assigned and its slice only appended to; (X1c) see C06; (X12) the *BinaryExpression case of resolveComputedFields, "
+           "evaluated over operand kinds x common-type existence, reports an error whenever an operand is not a number.",
+    "C10": " (E7) see C09.",
+    "C11": " (E7, X1c) errors of previous versions are neither dropped nor computed from the current model.",
+    "C12": " (GC1) see C04; (N1c) every zerolog.ConsoleWriter excludes the timestamp part.",
+    "C13": " (Q3b) the shorthand `T[]` stores Array.Dimensions only under a test that the parsed dimension list is not empty; (P6b) see C10.",
+    "C14": " (UI1) see C01; (Z1) see C08.",
+    "C15": " (NH1) see C04.",
+    "C16": " (CB6, PE3) no routine of the binary runtimes (C++ headers, _binary.py) catches the end-of-stream exception without rethrowing; (B5) the emitted batch reader "
+           "reports the block counter.",
+    "C17": " (B5) the emitted Read...Impl(std::vector<T>&) returns `current_block_remaining_ != 0`, not a capacity-based answer; (GR1) see C02; (PA1) registered here too.",
+    "C19": " (X10) every test in the typing of a binary expression is invariant under exchanging Left and Right; (X12) see C09; (F1) a fold over union cases keeps its "
+           "accumulated result (`r, err := F(acc, x)` puts r back into acc).",
+    "C20": " (GC1) see C04: nothing computed by one generation of `--watch` answers the next.",
+}
+for _src in (_ADDED, _ADDED3, _ADDED4):
     for _k, _v in _src.items():
         if _k in PROPS:
             PROPS[_k]["explanation"] += _v
